@@ -442,6 +442,10 @@ def lift_named_closure(chunk, header_re, signature, log, where):
     li0 = chunk.line_index(open_pos)
     li1 = chunk.line_index(close_pos)
     body = chunk.lines[li0 + 1:li1]
+    if 'head' in m.groupdict() and m.group('head'):
+        # the closure's body is one expression that opens the block (`|scope| match lhe(scope) { arms }`): that head - the part of the
+        # header named `head`, ending with the opening brace - is kept in front of the block, which is closed again
+        body = [Line('  ' + m.group('head'), ('rw', 'R4', chunk.lines[li0].origin))] + body + [Line('  }', ('rw', 'R4', chunk.lines[li1].origin))]
     new_lines = [Line(signature + ' {', ('rw', 'R4', chunk.lines[li0].origin))] + body + [Line('}', ('rw', 'R4', chunk.lines[li1].origin))]
     log.add('R4', where, 'local closure %s of %s' % (m.group(0), where), signature)
     chunk.lines = new_lines
